@@ -120,6 +120,16 @@ def r19_3(ctx):
             steps = [a for a in nfq.names(pc) if a in ("self.step", "self.step_foreign")]
             ctx.ob("R19.3", "process_to_completion-returns-indicator", len(steps) == 1, "returned right after the step that produced it (no further token processed)")
     ctx.floor("R19.3", "tb-propagation-paths", k, 1)
+    # completeness: EVERY path on which a step answered EncodingIndicator hands it out, whatever else is true (fragment or
+    # document, scripting, ...)
+    lost = None
+    seen = 0
+    for pc in nfq.feasible(pcs):
+        if any(v and re.search(r"(self\.step(_foreign)?\(.*\)|φ\(.*\)|loop\(.*\)|result) matches EncodingIndicator\(_\)", g) for g, v in pc["guards"].items()):
+            seen += 1
+            if not str(pc["ret"]).startswith("EncodingIndicator("):
+                lost = "a step answered EncodingIndicator but process_to_completion returns %s when %s" % (str(pc["ret"])[:40], [g[:50] for g, v in pc["guards"].items() if "self." in g and "matches" not in g][:3])
+    ctx.ob("R19.3", "process_to_completion-never-drops-an-indicator", lost is None and seen >= 1, lost or "%d paths on which a step produced the indicator all return it" % seen)
     T = ctx.tables("html")
     pcs = T["helpers"].get("emit_current_tag") or []
     k = 0
